@@ -48,8 +48,28 @@ func (mem *Mempool) VerifSetHook(h func(ev *VerifEvent)) {
 	verifHooks.Store(mem, h)
 }
 
+// VerifSetGlobalHook installs (or with nil removes) an observer that is told which pool every
+// mutation happened in; a harness that did not create the pool itself (e.g. the pool inside a
+// util/testnode) learns the *Mempool from it and can then use VerifSetHook / VerifSnapshot.
+func VerifSetGlobalHook(h func(mem *Mempool, kind string)) {
+	verifGlobalMu.Lock()
+	verifGlobal = h
+	verifGlobalMu.Unlock()
+}
+
+var (
+	verifGlobalMu sync.RWMutex
+	verifGlobal   func(mem *Mempool, kind string)
+)
+
 // verifEvent is called with proxyMtx held, after the mutation.
 func (mem *Mempool) verifEvent(kind string, tx *types.Transaction, block *types.Block, hashes [][]byte, err error) {
+	verifGlobalMu.RLock()
+	g := verifGlobal
+	verifGlobalMu.RUnlock()
+	if g != nil {
+		g(mem, kind)
+	}
 	h, ok := verifHooks.Load(mem)
 	if !ok {
 		return
